@@ -339,9 +339,10 @@ pub fn c10_script(r: &mut Rng, _index: u64, _tier: Tier) -> (CaseCfg, Vec<Step>)
     // one case in six: the poll that writes the PINGREQ is given up after the first of its two
     // bytes (transport that pends before every write and takes one byte at a time), the
     // application comes back a little later
-    if eff > 0 && r.chance(1, 6) {
+    // (... or after both bytes, while the flush is pending)
+    if eff > 0 && r.chance(1, 4) {
         if let Some(Step::Connect(c)) = s.last_mut() {
-            c.policy = IoPolicy { write: Chunk::One, pend_write: Pend::Always, ..IoPolicy::default() };
+            c.policy = IoPolicy { write: Chunk::One, pend_write: Pend::Always, pend_flush: Pend::Always, ..IoPolicy::default() };
         }
         s.push(Step::Poll { max_wait: interval + 1, cancel_at: Some(r.range(2, 4)) });
         s.push(Step::Advance(*r.pick(&[1u64, 1_000_000, 3_000_000, 4_000_000])));
